@@ -72,6 +72,8 @@ type VC struct {
 	specErrors []string
 	prevHeap   map[string]string
 	linfo      []lineInfo
+	localCells []localCell
+	ixNames    map[string]string
 	boxFacts   map[string]bool
 }
 
@@ -613,14 +615,25 @@ func (vc *VC) heapOf(st *State, class string) string {
 	return h
 }
 
-// havocAll replaces every heap class by a fresh array
+type localCell struct {
+	addr  string
+	typ   types.Type
+	alloc interface{}
+}
+
+// havocAll replaces every heap class by a fresh array. Cells of local variables whose address never leaves the
+// function (escape analysis in enc.go) keep their content: unknown code cannot reach them.
 func (vc *VC) havocAll(st *State, why string) {
+	old := st.clone()
 	for _, k := range vc.classOrd {
 		st.heap[k] = vc.freshConst(k+"@hv", vc.classSortByName(k))
 	}
 	nhw := vc.freshConst("hw", "Int")
 	vc.assume("(>= " + nhw + " " + st.hw + ")")
 	st.hw = nhw
+	for _, c := range vc.localCells {
+		vc.store(st, c.addr, c.typ, vc.load(old, c.addr, c.typ))
+	}
 }
 
 func (vc *VC) havocClass(st *State, class string) {
@@ -684,6 +697,30 @@ func (vc *VC) ea(a, i string) string {
 		vc.assume(fmt.Sprintf("(and (= (ea_arr %s) %s) (= (ea_idx %s) %s) (= (base %s) (base %s)) (= (akind %s) 1) (not (= %s 0)))", t, a, t, i, t, a, t, t))
 	}
 	return t
+}
+
+// sliceElem: address of element idx of slice s. Ground indices are given a name (an opaque constant equal to the index
+// expression) so that quantified facts whose trigger is (ea arr (+ off j)) match them whatever arithmetic the index
+// contains: the solver's simplifier would otherwise flatten (+ off (- len 1)) into a sum the trigger cannot match.
+func (vc *VC) sliceElem(s, idx string) string {
+	ix := idx
+	if !strings.Contains(idx, "?") {
+		ix = vc.nameIndex(idx)
+	}
+	return vc.ea("(s_arr "+s+")", "(+ (s_off "+s+") "+ix+")")
+}
+
+func (vc *VC) nameIndex(idx string) string {
+	if vc.ixNames == nil {
+		vc.ixNames = map[string]string{}
+	}
+	if n, ok := vc.ixNames[idx]; ok {
+		return n
+	}
+	n := vc.freshConst("ix", "Int")
+	vc.assume("(= " + n + " " + idx + ")")
+	vc.ixNames[idx] = n
+	return n
 }
 
 func (vc *VC) needEAQuant() {
@@ -766,7 +803,7 @@ func (vc *VC) refFact(st *State, t types.Type, v string) string {
 	case *types.Pointer, *types.Map, *types.Chan:
 		return fmt.Sprintf("(and (>= (base %s) 0) (<= (base %s) %s))", v, v, st.hw)
 	case *types.Slice:
-		return fmt.Sprintf("(and (>= (base (s_arr %s)) 0) (<= (base (s_arr %s)) %s) (>= (s_off %s) 0) (>= (s_len %s) 0) (>= (s_cap %s) (s_len %s)) (=> (= (s_arr %s) 0) (= (s_cap %s) 0)))", v, v, st.hw, v, v, v, v, v, v)
+		return fmt.Sprintf("(and (>= (base (s_arr %s)) 0) (<= (base (s_arr %s)) %s) (>= (s_off %s) 0) (>= (s_len %s) 0) (>= (s_cap %s) (s_len %s)) (=> (= (s_arr %s) 0) (= (s_cap %s) 0)) (< (+ (s_off %s) (s_cap %s)) 4611686018427387904))", v, v, st.hw, v, v, v, v, v, v, v, v)
 	}
 	return ""
 }
@@ -794,9 +831,28 @@ func (vc *VC) merge(states []*State, conds []string, hint string) *State {
 		}
 		return vc.define(vc.fresh(name+"@"+hint), sort, e)
 	}
+	// heaps are merged through a fresh array constant with one conditional equality per predecessor (not an ite term):
+	// the solver's e-graph then identifies the merged heap with the incoming one on each path, so quantified facts whose
+	// triggers mention the incoming heap still fire for reads of the merged heap.
+	pickHeap := func(k string) string {
+		first := vc.heapOf(states[0], k)
+		same := true
+		for _, s := range states[1:] {
+			if vc.heapOf(s, k) != first {
+				same = false
+			}
+		}
+		if same {
+			return first
+		}
+		n := vc.freshConst(k+"@"+hint, vc.classSortByName(k))
+		for i, s := range states {
+			vc.assume("(=> " + conds[i] + " (= " + n + " " + vc.heapOf(s, k) + "))")
+		}
+		return n
+	}
 	for _, k := range vc.classOrd {
-		k := k
-		out.heap[k] = pick(func(s *State) string { return vc.heapOf(s, k) }, vc.classSortByName(k), k)
+		out.heap[k] = pickHeap(k)
 	}
 	out.hw = pick(func(s *State) string { return s.hw }, "Int", "hw")
 	gk := map[string]bool{}
